@@ -589,6 +589,26 @@ def check_bitconv(res, facts, tier):
             rule.ok(key, "bit i of the result is input bit %s for every bit string; %d (N, length) cases" % ("i" if name.endswith("le") else "len-1-i", cases), f.loc)
 
 
+def check_mulhigh(res, facts):
+    """mul_high has no algorithm of its own: it is the high half of `mul` on every path.  A shortcut (e.g. `return zero`
+    when the bit lengths add up to at most 64N + 1) makes it disagree with mul().1 on the boundary."""
+    from rules.c07 import E, show, A, C
+    rule = res.rule("R-MULHIGH", "BigInt::mul_high is mul(self, other).1 on every path", 1)
+    fs = [f for f in facts.fns(unit="ws", crate="ark_ff") if f.kind != "Closure" and f.name == "mul_high" and f.self_head == "ark_ff::biginteger::BigInt"]
+    key = "ark_ff|BigInt::mul_high"
+    if not fs:
+        rule.bad(key, "anchor missing")
+        return
+    f = fs[0]
+    switches = [b for b in f.bbs if b["t"]["k"] == "switch"]
+    ret = E(f, {"c": 0})
+    want = ("call", "mul", (A(1), A(2)), ("1",))
+    if ret == want and not switches:
+        rule.ok(key, "mul(self, other).1", f.loc)
+    else:
+        rule.bad(key, "mul_high returns %s with %d branch(es): it is not mul(self, other).1 on every path, so a shortcut can return a different high half than the full product has (e.g. zero when the bit lengths sum to 64N + 1 and the product reaches 2^(64N))" % (show(ret)[:80], len(switches)), f.loc)
+
+
 def check_digitrange(res, facts):
     """signed_mod_reduction(n, 2^w) must not overflow for any window find_wnaf admits: interval analysis of its body
     for n in [0, 2^64) and modulus = 2^w, w over the range tested by find_wnaf's guard"""
@@ -653,6 +673,7 @@ def run(ctx, res):
     check_endian(res, facts)
     check_recode(res, facts)
     check_digitrange(res, facts)
+    check_mulhigh(res, facts)
     check_shifts(res, facts, ctx.tier)
     check_bitconv(res, facts, ctx.tier)
     return {
